@@ -502,7 +502,7 @@ func RunEnvCase(seed int64, exe, workDir string) *HistResult {
 			nCmd := 1 + r.Intn(3)
 			var script []string
 			for c := 0; c < nCmd; c++ {
-				script = append(script, shQuote(exe)+" dumpenv {{.tv}} cmd"+fmt.Sprint(c))
+				script = append(script, shQuote(exe)+" dumpenv {{.tv}} cmd"+fmt.Sprint(c)+" {{.num}} {{.big}} {{.small}} {{.flag}}")
 			}
 			// the interpreter's own view of a variable
 			script = append(script, `printf 'SH[%s]' "$PXV_A"`)
@@ -528,13 +528,15 @@ func RunEnvCase(seed int64, exe, workDir string) *HistResult {
 	type jobInfo struct {
 		id, pipe, tv string
 		opt          string
+		idx          int
 	}
 	var jobs []jobInfo
 	nJobs := 2 + r.Intn(4)
 	for i := 0; i < nJobs; i++ {
 		sp := specs[r.Intn(len(specs))]
 		tv := fmt.Sprintf("tv-%d-%d", i, r.Intn(1e6))
-		vars := map[string]interface{}{"tv": tv}
+		// variables of Go types as an embedding application passes them: they must be rendered as they are
+		vars := map[string]interface{}{"tv": tv, "num": 1000000 + i, "big": int64(9007199254740993), "small": int8(7), "flag": true}
 		opt := ""
 		if i%2 == 0 {
 			opt = fmt.Sprintf("opt-%d-%d", i, r.Intn(1e6))
@@ -545,11 +547,11 @@ func RunEnvCase(seed int64, exe, workDir string) *HistResult {
 			res.Inconclusive = "schedule: " + cls
 			return res
 		}
-		jobs = append(jobs, jobInfo{id, sp.Name, tv, opt})
+		jobs = append(jobs, jobInfo{id, sp.Name, tv, opt, i})
 	}
 	// a job that passes the reserved variable name, naming the first job: it must not run anything nor touch that job
 	victim := jobs[0]
-	evilID, evilCls := sys.Schedule(0, victim.pipe, map[string]interface{}{"tv": "evil", "opt": "evil", "__jobID": victim.id}, "evil")
+	evilID, evilCls := sys.Schedule(0, victim.pipe, map[string]interface{}{"tv": "evil", "opt": "evil", "num": 1, "big": 2, "small": 3, "flag": false, "__jobID": victim.id}, "evil")
 	var ids []string
 	for _, j := range jobs {
 		ids = append(ids, j.id)
@@ -615,6 +617,9 @@ func RunEnvCase(seed int64, exe, workDir string) *HistResult {
 			}
 			for ci, d := range dumps {
 				res.Evaluations["C18"]++
+				if want := []string{fmt.Sprint(1000000 + j.idx), "9007199254740993", "7", "true"}; len(d.Args) >= 6 && !eqStr(d.Args[2:6], want) {
+					find([]string{"C18"}, "C18:script-rendered-with-altered-variable-values", "job %s task %s command %d: typed job variables were rendered as %v, expected %v", j.tv, te.name, ci, d.Args[2:6], want)
+				}
 				if len(d.Args) < 2 || d.Args[0] != j.tv {
 					find([]string{"C18"}, "C18:script-rendered-with-wrong-variables", "job %s task %s command %d was rendered with arguments %v", j.tv, te.name, ci, d.Args)
 				}
